@@ -26,7 +26,8 @@ ASSUMPTIONS = [
     "lower-case 'q' is not in the statement's unit list: it is accepted either as Q or as unsupported, but "
     "consistently across all five functions",
     "magnitudes stay within 1e-200..1e200 so that no conversion overflows or goes subnormal",
-    "the percentage reference is a non-zero finite number (a zero reference is documented to mean 'no reference')",
+    "the percentage reference is a finite number; unitsToUserUnits documents a zero reference as 'no reference' and "
+    "is not compared for it, the attribute reader getLength takes n% of 0 to be 0",
 ]
 REQUIRED_CLASSES = ["nontrivial", "unit:none", "unit:px", "unit:in", "unit:mm", "unit:cm", "unit:pt", "unit:pc",
                     "unit:Q", "unit:%", "malformed", "unsupported_unit", "exp_plus", "exp_minus", "exp_bare",
@@ -190,7 +191,11 @@ def body(ctx, case):
 
     # 2. conversion to user units
     expect("unitsToUserUnits(%s)" % what, uu_default, want_default)
-    expect("unitsToUserUnits(%s, %r)" % (what, ref), uu_ref, want_ref)
+    if ref != 0 or unit != "%":
+        expect("unitsToUserUnits(%s, %r)" % (what, ref), uu_ref, want_ref)
+    if ref == 0:
+        classes.add("zero_reference")
+        ctx.classes["zero_reference"] += 1
     # 3. converting back returns the original value
     back = call_sut(plot_utils.userUnitToUnits, uu_default, parsed[1])
     expect("userUnitToUnits(unitsToUserUnits(%s) = %r, %r)" % (what, uu_default, parsed[1]), back, vexact)
@@ -291,7 +296,9 @@ def references(draw):
     if kind == 1:
         return draw(st.integers(1, 100000))
     if kind == 2:
-        return -draw(st.integers(1, 1000))
+        # a reference of zero (a collapsed page): the attribute reader takes its percentages of it like of any other
+        # number; unitsToUserUnits documents zero as "no reference given" and is not compared there
+        return draw(st.sampled_from([0, 0.0, -1, -100])) if draw(st.booleans()) else -draw(st.integers(1, 1000))
     val = draw(st.integers(1, 10 ** 9)) * 10.0 ** draw(st.integers(-9, 3))
     return val
 
